@@ -20,10 +20,22 @@
 (* call starts) and io.EOF afterwards, which is what the harness's generator *)
 (* does.  Cap is the pipe capacity (2K+1 in the code; smaller values are     *)
 (* explored too - they only make the workers block earlier).                 *)
+(*                                                                           *)
+(* CtxGen = TRUE: the generator respects its context - a call that is being  *)
+(* held returns the context's error once the workers' context is done, and a *)
+(* call made with a dead context returns it at once (no ticket is taken).    *)
+(* What the worker does with that error is CanContinueOnError (opts.go):     *)
+(* ContinueOnCtx = FALSE is the code (a context error always ends the        *)
+(* worker, whatever the options); TRUE is the mutation "with ContinueOnError *)
+(* + IncludeContextExpirationErrors a context error is continued".           *)
+(* LoopChecksCtx = TRUE is the code (producer.go: the worker looks at its    *)
+(* context before every call of the generator); FALSE is the loop without    *)
+(* that check, which trusts CanContinueOnError to end it: together with      *)
+(* ContinueOnCtx the worker calls the generator for ever (Settles fails).    *)
 (***************************************************************************)
 EXTENDS Integers, Sequences, FiniteSets, Bags, BagsExt, TLC
 
-CONSTANTS MaxN, MaxK, Cap, CloseOn
+CONSTANTS MaxN, MaxK, Cap, CloseOn, CtxGen, ContinueOnCtx, LoopChecksCtx
 
 None == 0
 VARIABLES n, k, next, gpc, ghold, wg, cpc, pipe, pipeClosed, upc, delivered, ueof, ictx, iclosed, done, stopped
@@ -79,7 +91,11 @@ External == Read \/ Close \/ Cancel \/ \E w \in Workers : GenReturn(w)
 (* ---------------------------------------------------------------- Internal *)
 \* worker w calls the generator: it takes the next ticket, or gets io.EOF at once when none is left
 GCall(w) == /\ gpc[w] = "start"
-            /\ IF next < n
+            /\ IF LoopChecksCtx /\ done["w"]
+                 THEN /\ gpc' = [gpc EXCEPT ![w] = "exit"] /\ UNCHANGED <<next, ghold>>      \* ctx.Err() # nil: the loop ends
+                 ELSE IF CtxGen /\ done["w"]
+                 THEN /\ gpc' = [gpc EXCEPT ![w] = "gen"] /\ UNCHANGED <<next, ghold>>       \* a call that meets the dead context
+                 ELSE IF next < n
                  THEN /\ next' = next + 1 /\ ghold' = [ghold EXCEPT ![w] = next + 1] /\ gpc' = [gpc EXCEPT ![w] = "gen"]
                  ELSE /\ gpc' = [gpc EXCEPT ![w] = "exit"] /\ UNCHANGED <<next, ghold>>
             /\ UNCHANGED <<n, k, wg, cpc, pipe, pipeClosed, upc, delivered, ueof, ictx, iclosed, done, stopped>>
@@ -92,6 +108,12 @@ GSend(w) == /\ gpc[w] = "send" /\ ~pipeClosed /\ Len(pipe) < Cap
 GSendEnd(w) == /\ gpc[w] = "send" /\ (done["w"] \/ pipeClosed)
                /\ ghold' = [ghold EXCEPT ![w] = None] /\ gpc' = [gpc EXCEPT ![w] = "exit"]
                /\ UNCHANGED <<n, k, next, wg, cpc, pipe, pipeClosed, upc, delivered, ueof, ictx, iclosed, done, stopped>>
+
+\* a context-respecting generator returns the context's error; CanContinueOnError decides what follows
+GenCtx(w) == /\ CtxGen /\ gpc[w] = "gen" /\ done["w"]
+             /\ ghold' = [ghold EXCEPT ![w] = None]
+             /\ gpc' = [gpc EXCEPT ![w] = IF ContinueOnCtx THEN "start" ELSE "exit"]
+             /\ UNCHANGED <<n, k, next, wg, cpc, pipe, pipeClosed, upc, delivered, ueof, ictx, iclosed, done, stopped>>
 
 GExit(w) == /\ gpc[w] = "exit" /\ wg' = wg - 1 /\ gpc' = [gpc EXCEPT ![w] = "done"]
             /\ UNCHANGED <<n, k, next, ghold, cpc, pipe, pipeClosed, upc, delivered, ueof, ictx, iclosed, done, stopped>>
@@ -111,7 +133,7 @@ URecvEnd == /\ upc = "recv" /\ ((pipeClosed /\ pipe = <<>>) \/ done["i"])
             /\ UNCHANGED <<n, k, next, gpc, ghold, wg, cpc, pipe, pipeClosed, delivered, ictx, stopped>>
 
 Internal == CWait \/ CCancel \/ CClose \/ URecv \/ URecvEnd
-            \/ \E w \in Workers : GCall(w) \/ GSend(w) \/ GSendEnd(w) \/ GExit(w)
+            \/ \E w \in Workers : GCall(w) \/ GSend(w) \/ GSendEnd(w) \/ GExit(w) \/ GenCtx(w)
 Next == Internal \/ External
 Spec == Init /\ [][Next]_vars /\ WF_vars(Internal)
 LiveSpec == Init /\ [][Internal \/ Read \/ \E w \in Workers : GenReturn(w)]_vars /\ WF_vars(Internal) /\ WF_vars(Read)
